@@ -41,6 +41,9 @@ func peerOf(mac string) string {
 			return string(peerNames[i])
 		}
 	}
+	if n, ok := altNameByMAC[mac]; ok {
+		return n
+	}
 	return mac
 }
 
@@ -85,12 +88,47 @@ func (k kind) isAuth() bool    { return k == kPAPGood || k == kPAPBad || k == kP
 func (k kind) isSession() bool { return k >= kLCPReq && k <= kIP }
 
 // sym is one letter: a frame of kind K from peer Src carrying session id ID
-// (ignored for PADI/PADR), Ethernet destination Dst (0 server, 1 broadcast, 2 another station).
+// (ignored for PADI/PADR unless SID is set), Ethernet destination Dst (0 server,
+// 1 broadcast, 2 a station that takes no part, 3+k station k of peerMACs).
+// Alt > 0: the Ethernet source is altSrcs[Alt] (the AC's own address, the
+// broadcast / all-zero address, an owner's address with one bit flipped ...)
+// instead of the address of station Src (foreign_test.go).
 type sym struct {
 	K   kind
 	Src int
 	ID  uint16
 	Dst int
+	Alt int
+	SID bool // PADI/PADR: the PPPoE header carries ID in its session-id field (RFC 2516 wants 0 there)
+}
+
+func (s sym) srcMAC() net.HardwareAddr {
+	if s.Alt > 0 {
+		return altSrcs[s.Alt].MAC
+	}
+	return peerMACs[s.Src]
+}
+
+func (s sym) srcName() string {
+	if s.Alt > 0 {
+		return altSrcs[s.Alt].Name
+	}
+	return string(peerNames[s.Src])
+}
+
+// toServer: the receive loop takes frames addressed to the AC or to everybody.
+func (s sym) toServer() bool { return s.Dst == 0 || s.Dst == 1 }
+
+func (s sym) dstMAC() net.HardwareAddr {
+	switch {
+	case s.Dst == 1:
+		return bcastMAC
+	case s.Dst == 2:
+		return strayMAC
+	case s.Dst >= 3:
+		return peerMACs[s.Dst-3]
+	}
+	return serverMAC
 }
 
 func (s sym) String() string {
@@ -98,16 +136,18 @@ func (s sym) String() string {
 		return "tick"
 	}
 	d := ""
-	switch s.Dst {
-	case 1:
+	switch {
+	case s.Dst == 1:
 		d = "(bcast)"
-	case 2:
+	case s.Dst == 2:
 		d = "(to-other-station)"
+	case s.Dst >= 3:
+		d = fmt.Sprintf("(to-%c)", peerNames[s.Dst-3])
 	}
-	if s.K == kPADI || s.K == kPADR {
-		return fmt.Sprintf("%c:%s%s", peerNames[s.Src], kindName[s.K], d)
+	if (s.K == kPADI || s.K == kPADR) && !s.SID {
+		return fmt.Sprintf("%s:%s%s", s.srcName(), kindName[s.K], d)
 	}
-	return fmt.Sprintf("%c>%d:%s%s", peerNames[s.Src], s.ID, kindName[s.K], d)
+	return fmt.Sprintf("%s>%d:%s%s", s.srcName(), s.ID, kindName[s.K], d)
 }
 
 func seqString(q []sym) string {
@@ -155,21 +195,19 @@ func pppoeHdr(code byte, sid uint16, payload []byte) []byte {
 }
 
 func buildFrame(s sym, user string, ident byte) []byte {
-	dst := serverMAC
-	switch s.Dst {
-	case 1:
-		dst = bcastMAC
-	case 2:
-		dst = strayMAC
-	}
-	src := peerMACs[s.Src]
+	dst := s.dstMAC()
+	src := s.srcMAC()
 	hu := tlv16(0x0103, []byte{0xc0, byte(s.Src), ident})
+	var discID uint16
+	if s.SID {
+		discID = s.ID
+	}
 	switch s.K {
 	case kPADI:
-		return eth(dst, src, 0x8863, pppoeHdr(0x09, 0, append(tlv16(0x0101, nil), hu...)))
+		return eth(dst, src, 0x8863, pppoeHdr(0x09, discID, append(tlv16(0x0101, nil), hu...)))
 	case kPADR:
 		tags := append(tlv16(0x0101, []byte("internet")), tlv16(0x0104, []byte("0123456789abcdef"))...)
-		return eth(dst, src, 0x8863, pppoeHdr(0x19, 0, append(tags, hu...)))
+		return eth(dst, src, 0x8863, pppoeHdr(0x19, discID, append(tags, hu...)))
 	case kPADT:
 		return eth(dst, src, 0x8863, pppoeHdr(0xa7, s.ID, nil))
 	}
@@ -712,7 +750,7 @@ func (c *caseCtx) step(s sym, judge bool) bool {
 	c.lastEm = em
 	c.mon.frame(s, user, before, after, em, judge)
 	_, live := before.byID(s.ID)
-	return live && s.K != kPADI && s.K != kPADR
+	return live && ((s.K != kPADI && s.K != kPADR) || s.SID)
 }
 
 // placeCounter puts the session manager's id counter at v (hook; the state is
